@@ -13,6 +13,7 @@ import (
 	"iter"
 	"math"
 	"slices"
+	"sort"
 	"strings"
 	"testing"
 
@@ -22,7 +23,8 @@ import (
 
 // The first name is the empty string: a prompt may be registered under it (its uid is then ""),
 // the other kinds register it as "a" (tool names and URIs may not be empty).
-var c17Names = []string{"", "b", "c", "d", "e"}
+// Upper- and lower-case names are mixed: the one stable order is the byte order of the ids.
+var c17Names = []string{"", "b", "C", "d", "E"}
 
 func c17Alias(n string) string {
 	if n == "" {
@@ -388,9 +390,17 @@ func c17BadCursors(env *verifx.Env, res *verifx.Result) {
 				cases.Violate(idx, "c17 stale-setup", fmt.Sprintf("%s: %v", kind.name, err), 1)
 				continue
 			}
-			kind.remove(e.s, "b") // the cursor's own item disappears
+			// (page size 2: the cursor points at the second item in id order; the third comes next)
+			byID := map[string]string{}
+			var sortedIDs []string
+			for _, n := range c17Names {
+				byID[kind.id(n)] = n
+				sortedIDs = append(sortedIDs, kind.id(n))
+			}
+			sort.Strings(sortedIDs)
+			kind.remove(e.s, byID[sortedIDs[1]]) // the cursor's own item disappears
 			ids, _, err := kind.list(ctx, e.cs, next)
-			if err != nil || len(ids) == 0 || ids[0] != kind.id("c") {
+			if err != nil || len(ids) == 0 || ids[0] != sortedIDs[2] {
 				cases.Violate(idx, "c17 stale-cursor", fmt.Sprintf("%s: a cursor whose item was removed yields %v, %v; want the items after it", kind.name, ids, err), 3)
 				continue
 			}
